@@ -15,8 +15,8 @@ else:
 shutil.copytree(src + "/%s_demo" % m, dst + "/demo")
 j = json.load(open(src + "/%s.json" % m))
 head = os.popen("git -C /repo rev-parse --short HEAD").read().strip()
-meta = {"property": pid, "round": 2, "summary": j.get("summary"), "needs": j.get("needs"), "why_tests_pass": j.get("why_tests_pass"), "files": j.get("files"),
-        "origin": "fresh sub-agent (second round) given only the property text, the summaries of the first-round changes to avoid, and a scratch worktree of /repo at 48331cc",
+meta = {"property": pid, "round": int(os.environ.get("SEED_ROUND", "2")), "summary": j.get("summary"), "needs": j.get("needs"), "why_tests_pass": j.get("why_tests_pass"), "files": j.get("files"),
+        "origin": "fresh sub-agent (later round) given only the property text, the summaries of the earlier changes to avoid, and a scratch worktree of /repo",
         "confirmed": "in the scratch worktree: patch applies and builds, `go test ./sql/... ./schemahcl/...` and `cd cmd/atlas && go test ./...` pass with it, the demonstration fails with it and passes without it",
         "ported": "patch.diff is the same change re-expressed on the tree that contains a later fix: commit touching the same lines (patch.orig.diff = as delivered)" if ported else None,
         "checks_run": notes,
